@@ -565,7 +565,7 @@ func TestRepoFactsAllTrue(t *testing.T) {
 	}
 }
 
-var sourceFiles = []string{dir + "util/utils.go", "pkg/api/galaxy/constant/constant.go", dir + "event.go", dir + "bind.go", dir + "resync.go",
+var sourceFiles = []string{"pkg/ipam/floatingip/store_crd.go", dir + "util/utils.go", "pkg/api/galaxy/constant/constant.go", dir + "event.go", dir + "bind.go", dir + "resync.go",
 	dir + "filter.go", dir + "floatingip_plugin.go", dir + "preempt.go", "pkg/ipam/floatingip/ipam_crd.go"}
 
 // patched copies the files the translator reads out of /repo and applies a patch from testdata ("" = none).
@@ -616,6 +616,8 @@ func TestSeededChangesFlipFacts(t *testing.T) {
 		"seeded-C04-4.diff": "configurePoolMatchesSubnetAndRanges",
 		"seeded-C04-5.diff": "bindEnqueuesReleaseOnlyOnNotFound",
 		"seeded-C01-5.diff": "unbindChecksUID",
+		"seeded-C01-7.diff": "reloadListsApiserver",
+		"seeded-C08-7.diff": "bindReplyInRequestOrder",
 	} {
 		got, err := gen(patched(t, p))
 		if err != nil {
@@ -729,6 +731,44 @@ func TestReleaseDecisionForms(t *testing.T) {
 	for i, d := range bad {
 		if ok, _, _ := releaseRechecks(mk(d, `if p.cloudProvider != nil && fip.NodeName != ""`)); ok {
 			t.Errorf("bad form %d accepted", i)
+		}
+	}
+}
+
+func TestListsApiserver(t *testing.T) {
+	for src, want := range map[string]bool{
+		`func (ci *C) listFloatingIPs() (*L, error) {
+	fips, err := ci.client.GalaxyV1alpha1().FloatingIPs().List(context.TODO(), metav1.ListOptions{})
+	if err != nil {
+		return nil, err
+	}
+	return fips, nil
+}`: true,
+		`func (c *C) listFloatingIPs() (*L, error) {
+	return c.client.GalaxyV1alpha1().FloatingIPs().List(context.TODO(), metav1.ListOptions{})
+}`: true,
+		`func (ci *C) listFloatingIPs() (*L, error) {
+	if ci.fipInformer != nil && ci.fipInformer.Informer().HasSynced() {
+		if cached, err := ci.fipInformer.Lister().List(labels.Everything()); err == nil {
+			return wrap(cached), nil
+		}
+	}
+	fips, err := ci.client.GalaxyV1alpha1().FloatingIPs().List(context.TODO(), metav1.ListOptions{})
+	if err != nil {
+		return nil, err
+	}
+	return fips, nil
+}`: false,
+		`func (ci *C) listFloatingIPs() (*L, error) {
+	fips, err := ci.client.GalaxyV1alpha1().FloatingIPs().List(context.TODO(), metav1.ListOptions{})
+	if err != nil {
+		return nil, err
+	}
+	return ci.lastList, nil
+}`: false,
+	} {
+		if got := listsApiserver(traceOf(t, src, "C", "listFloatingIPs")); got != want {
+			t.Errorf("got %v want %v for\n%s", got, want, src)
 		}
 	}
 }
